@@ -1857,7 +1857,10 @@ class Scheduler:
         if job.consumed_limits is not None:
             self._release_resources(job.consumed_limits)
             job.consumed_limits = None
-            self._check_jobs_pending_limits()
+
+        # Always give waiting jobs another chance: a job that was nominated to run but turned out
+        # to be cached has consumed nothing, and jobs it displaced may be able to run now.
+        self._check_jobs_pending_limits()
 
         assert job.task
         assert job.eval_hash
@@ -2088,7 +2091,7 @@ class Scheduler:
             if job.consumed_limits is not None:
                 self._release_resources(job.consumed_limits)
                 job.consumed_limits = None
-                self._check_jobs_pending_limits()
+            self._check_jobs_pending_limits()
 
             if self.use_task_traceback:
                 self._set_task_traceback(job, error, error_traceback=error_traceback)
